@@ -283,6 +283,10 @@ func main() {
 		parent(a)
 		return
 	}
+	if os.Getenv(childEnv) == listenerMode {
+		listenerMain()
+		return
+	}
 	out = bufio.NewWriterSize(os.Stdout, 1<<20)
 	defer out.Flush()
 	child(a)
